@@ -288,6 +288,72 @@ func c04Trees(c *core.Ctx) {
 	}
 }
 
+// c04Destructive: block processing must only ADD rows keyed (through the cascade) to the block being processed. A
+// DELETE / UPDATE executed while processing block N changes rows that belong to earlier blocks; when block N is later
+// reorged away nothing restores them, so the store no longer looks as if N had never been seen.
+func c04Destructive(c *core.Ctx) {
+	const rule = "C04-destructive"
+	sx := core.NewSymx()
+	globalInit := func(g *ssa.Global) string {
+		out := ""
+		if initFn := g.Pkg.Func("init"); initFn != nil {
+			core.Instrs(initFn, func(i ssa.Instruction) {
+				if st, ok := i.(*ssa.Store); ok && st.Addr == ssa.Value(g) {
+					out = sx.Of(st.Val).String()
+				}
+			})
+		}
+		return out
+	}
+	for _, fn := range storeFns(c, rule, "ProcessBlock") {
+		for _, s := range findTxScopes(fn) {
+			if s.txVal == nil || s.returnsTx() {
+				continue
+			}
+			ord := map[string]int{}
+			cv := &coneVisitor{c: c, visited: map[string]bool{}}
+			cv.onWrite = func(f *ssa.Function, w *sqlWrite, isTx bool, chain string) {
+				verb := ""
+				switch w.what {
+				case "meddler.Insert":
+					verb = "INSERT"
+				case "meddler.Update", "meddler.Save":
+					verb = "UPDATE"
+				default:
+					cc := core.AsCall(w.instr)
+					args := cc.Args
+					if !cc.IsInvoke() {
+						args = args[1:]
+					}
+					q := sx.Of(args[0]).String()
+					if u, ok := args[0].(*ssa.UnOp); ok {
+						if g, ok := u.X.(*ssa.Global); ok {
+							q = globalInit(g)
+						}
+					}
+					for _, kw := range []string{"INSERT", "DELETE", "UPDATE", "REPLACE"} {
+						if i := strings.Index(strings.ToUpper(q), kw); i >= 0 && (verb == "" || i < strings.Index(strings.ToUpper(q), verb)) {
+							verb = kw
+						}
+					}
+					if verb == "" {
+						verb = "?" + q
+					}
+				}
+				base := fmt.Sprintf("%s:%s@%s", core.ShortFn(fn), verb, core.ShortFn(f))
+				ord[base]++
+				construct := fmt.Sprintf("%s#%d", base, ord[base])
+				if verb == "INSERT" {
+					c.Hold(rule, construct, "adds rows only ("+chain+")")
+				} else {
+					c.Violate(rule, construct, w.instr.Pos(), "block processing executes a "+verb+" ("+chain+"): it alters rows recorded for earlier blocks, and a later reorg of this block cannot restore them")
+				}
+			}
+			cv.visit(fn, s.isTx, fn.Name(), 0)
+		}
+	}
+}
+
 func c04Atomic(c *core.Ctx) {
 	for _, fn := range storeFns(c, "C04-atomic", "Reorg") {
 		n := ruleTxPair(c, "C04-atomic", fn)
@@ -354,7 +420,9 @@ func init() {
 			{ID: "C04-cascade", Floor: 13, Run: c04Cascade, Text: "[SCHEMA] every per-block table cascades from block(num); tree tables accounted"},
 			{ID: "C04-fk", Floor: 4, Run: c04FK, Text: "[WHO]+const: single sql.Open with _foreign_keys=on; stores use it"},
 			{ID: "C04-trees", Floor: 6, Run: c04Trees, Text: "[WHO]+[PROV]+[DOM] every tree field rewound with (tx, firstReorgedBlock) before Commit; block delete bound to it"},
+			{ID: "C04-destructive", Floor: 15, Run: c04Destructive, Text: "[WHO] block processing only inserts; a DELETE/UPDATE in the ProcessBlock cone is not undone by a reorg (2 known findings)"},
 			{ID: "C04-atomic", Floor: 5, Run: c04Atomic, Text: "[TX] Reorg pairing and write-through"},
+			{ID: "C04-frontier-mem", Floor: 6, Run: c07TxMem, Text: "[TX] (shared with C07 TX-mem) frontier writes under the rollback registration; mismatch rebuilds"},
 			{ID: "C04-frontier", Floor: 3, Run: c04Frontier, Text: "[DOM] initCache rewrites lastIndex and lastLeftCache on every successful return"},
 		},
 	})
